@@ -39,6 +39,15 @@ Theorem free_stateid_locks_held_gate : forall s c st cfh sfh o lf,
 Proof. exact free_stateid_locks_held. Qed.
 Print Assumptions free_stateid_locks_held_gate.
 
+(* The monitor applies LockSet's table predicates to dumped tables after
+   encoding (client, lock-owner, identity tag) as one number; the encoding
+   is injective (tags are >= -1), so it never confuses two lock-owners. *)
+Theorem owner_code_injective : forall c1 k1 t1 c2 k2 t2,
+  (-1 <= t1)%Z -> (-1 <= t2)%Z ->
+  owner_code c1 k1 t1 = owner_code c2 k2 t2 -> c1 = c2 /\ k1 = k2 /\ t1 = t2.
+Proof. exact owner_code_inj. Qed.
+Print Assumptions owner_code_injective.
+
 (* Non-vacuity: a lock-owner that holds [0,10) exclusively tests and
    re-locks its own range (granted), another owner is denied by it; after
    CLOSE the table is empty. *)
